@@ -18,6 +18,7 @@ class RunResult:
         self.summary = None         # final_stats DataFrame
         self.finished = None
         self.kw = None
+        self.exc_locals = {}        # scalar locals of the innermost model frame of the exception
 
 
 PERMITTED = (
@@ -156,6 +157,7 @@ def run(spec, opts=None, kw=None, init_budget=400_000, stepping=None, keep_model
                 res.status, res.exc = "timeout", exc_info(ex)
             except I.HarnessAbort as ex:
                 res.status, res.exc = "abort", exc_info(ex)
+                res.exc_locals = I.exc_locals(ex)
             except Exception as ex:  # noqa: BLE001 - everything the model raises is an outcome
                 res.exc = exc_info(ex)
                 res.status = "rejected" if permitted_rejection(res.exc) else "error"
